@@ -38,6 +38,13 @@ package fsm
 //@ ghost supStaked(s *StateMachine) uint64
 //@ ghost supDelegated(s *StateMachine) uint64
 //@ spec func addrOf(a crypto.AddressI) BSeq
+//   acctSum(s), poolSum(s), stakeSum(s): the sums over ALL accounts / pools / validator stakes
+//   (unbounded integers; the setters change them by exactly the change of the one entry they write)
+//@ ghost acctSum(s *StateMachine) int
+//@ ghost poolSum(s *StateMachine) int
+//@ ghost stakeSum(s *StateMachine) int
+//@ ghost stakeOf(a BSeq) uint64
+//@ spec func allTokens(s *StateMachine) int = acctSum(s) + poolSum(s) + stakeSum(s)
 
 //@ func (*StateMachine).GetAccount
 //@   trusted
@@ -45,9 +52,10 @@ package fsm
 //@   ensures isnil(result1) ==> result0 != nil && result0.Amount == acctBal(addrOf(address)) && bytes(result0.Address) == addrOf(address)
 //@ func (*StateMachine).SetAccount
 //@   trusted
-//@   modifies ghost(acctBal)
+//@   modifies ghost(acctBal), ghost(acctSum)
 //@   ensures isnil(result) ==> acctBal() == old(store(acctBal(), bytes(account.Address), account.Amount))
-//@   ensures !isnil(result) ==> acctBal() == old(acctBal())
+//@   ensures isnil(result) ==> acctSum(s) == old(acctSum(s)) - old(acctBal(bytes(account.Address))) + account.Amount
+//@   ensures !isnil(result) ==> acctBal() == old(acctBal()) && acctSum(s) == old(acctSum(s))
 //@ func (*StateMachine).AccountSpendableAmount
 //@   trusted
 //@   pure
@@ -58,9 +66,10 @@ package fsm
 //@   ensures isnil(result1) ==> result0 != nil && fresh(result0) && result0.Amount == poolBal(id) && result0.Id == id
 //@ func (*StateMachine).SetPool
 //@   trusted
-//@   modifies ghost(poolBal)
+//@   modifies ghost(poolBal), ghost(poolSum)
 //@   ensures isnil(err) ==> poolBal() == old(store(poolBal(), pool.Id, pool.Amount))
-//@   ensures !isnil(err) ==> poolBal() == old(poolBal())
+//@   ensures isnil(err) ==> poolSum(s) == old(poolSum(s)) - old(poolBal(pool.Id)) + pool.Amount
+//@   ensures !isnil(err) ==> poolBal() == old(poolBal()) && poolSum(s) == old(poolSum(s))
 //@ func (*StateMachine).GetSupply
 //@   trusted
 //@   pure
@@ -76,37 +85,63 @@ package fsm
 //@ func (*StateMachine).AccountAdd
 //@   ensures[credit] result == nil ==> acctBal() == old(store(acctBal(), addrOf(address), acctBal(addrOf(address)) + amountToAdd))
 //@   ensures[nowrap] result == nil ==> old(acctBal(addrOf(address))) + amountToAdd <= MaxUint64
-//@   ensures[failsafe] result != nil ==> acctBal() == old(acctBal())
-//@   ensures[frame] poolBal() == old(poolBal()) && supTotal(s) == old(supTotal(s))
+//@   ensures[sum] result == nil ==> acctSum(s) == old(acctSum(s)) + amountToAdd
+//@   ensures[failsafe] result != nil ==> acctBal() == old(acctBal()) && acctSum(s) == old(acctSum(s))
+//@   ensures[frame] poolBal() == old(poolBal()) && poolSum(s) == old(poolSum(s)) && stakeSum(s) == old(stakeSum(s)) && supTotal(s) == old(supTotal(s))
 //@ func (*StateMachine).AccountSub
 //@   ensures[debit] result == nil ==> acctBal() == old(store(acctBal(), addrOf(address), acctBal(addrOf(address)) - amountToSub))
 //@   ensures[nonneg] result == nil ==> old(acctBal(addrOf(address))) >= amountToSub
-//@   ensures[failsafe] result != nil ==> acctBal() == old(acctBal())
-//@   ensures[frame] poolBal() == old(poolBal()) && supTotal(s) == old(supTotal(s))
+//@   ensures[sum] result == nil ==> acctSum(s) == old(acctSum(s)) - amountToSub
+//@   ensures[failsafe] result != nil ==> acctBal() == old(acctBal()) && acctSum(s) == old(acctSum(s))
+//@   ensures[frame] poolBal() == old(poolBal()) && poolSum(s) == old(poolSum(s)) && stakeSum(s) == old(stakeSum(s)) && supTotal(s) == old(supTotal(s))
 //@ func (*StateMachine).PoolAdd
 //@   ensures[credit] result == nil ==> poolBal() == old(store(poolBal(), id, poolBal(id) + amountToAdd))
 //@   ensures[nowrap] result == nil ==> old(poolBal(id)) + amountToAdd <= MaxUint64
-//@   ensures[failsafe] result != nil ==> poolBal() == old(poolBal())
-//@   ensures[frame] acctBal() == old(acctBal()) && supTotal(s) == old(supTotal(s))
+//@   ensures[sum] result == nil ==> poolSum(s) == old(poolSum(s)) + amountToAdd
+//@   ensures[failsafe] result != nil ==> poolBal() == old(poolBal()) && poolSum(s) == old(poolSum(s))
+//@   ensures[frame] acctBal() == old(acctBal()) && acctSum(s) == old(acctSum(s)) && stakeSum(s) == old(stakeSum(s)) && supTotal(s) == old(supTotal(s))
 //@ func (*StateMachine).PoolSub
 //@   ensures[debit] result == nil ==> poolBal() == old(store(poolBal(), id, poolBal(id) - amountToSub))
 //@   ensures[nonneg] result == nil ==> old(poolBal(id)) >= amountToSub
-//@   ensures[failsafe] result != nil ==> poolBal() == old(poolBal())
-//@   ensures[frame] acctBal() == old(acctBal()) && supTotal(s) == old(supTotal(s))
+//@   ensures[sum] result == nil ==> poolSum(s) == old(poolSum(s)) - amountToSub
+//@   ensures[failsafe] result != nil ==> poolBal() == old(poolBal()) && poolSum(s) == old(poolSum(s))
+//@   ensures[frame] acctBal() == old(acctBal()) && acctSum(s) == old(acctSum(s)) && stakeSum(s) == old(stakeSum(s)) && supTotal(s) == old(supTotal(s))
 //@ func (*StateMachine).AddToTotalSupply
 //@   ensures[mint] result == nil ==> supTotal(s) == old(supTotal(s)) + amount
 //@   ensures[nowrap] result == nil ==> old(supTotal(s)) + amount <= MaxUint64
 //@   ensures[failsafe] result != nil ==> supTotal(s) == old(supTotal(s))
-//@   ensures[frame] acctBal() == old(acctBal()) && poolBal() == old(poolBal())
+//@   ensures[frame] acctBal() == old(acctBal()) && poolBal() == old(poolBal()) && allTokens(s) == old(allTokens(s))
 //@ func (*StateMachine).SubFromTotalSupply
 //@   ensures[burn] result == nil ==> supTotal(s) == old(supTotal(s)) - amount && old(supTotal(s)) >= amount
 //@   ensures[failsafe] result != nil ==> supTotal(s) == old(supTotal(s))
-//@   ensures[frame] acctBal() == old(acctBal()) && poolBal() == old(poolBal())
+//@   ensures[frame] acctBal() == old(acctBal()) && poolBal() == old(poolBal()) && allTokens(s) == old(allTokens(s))
 // minting creates exactly `amount` in the total and in one balance
 //@ func (*StateMachine).MintToPool
 //@   ensures[mint] result == nil ==> supTotal(s) == old(supTotal(s)) + amount && poolBal() == old(store(poolBal(), id, poolBal(id) + amount)) && acctBal() == old(acctBal())
+//@   ensures[conserve] result == nil ==> allTokens(s) - supTotal(s) == old(allTokens(s) - supTotal(s))
 //@ func (*StateMachine).MintToAccount
 //@   ensures[mint] result == nil ==> supTotal(s) == old(supTotal(s)) + amount && acctBal() == old(store(acctBal(), addrOf(address), acctBal(addrOf(address)) + amount)) && poolBal() == old(poolBal())
+//@   ensures[conserve] result == nil ==> allTokens(s) - supTotal(s) == old(allTokens(s) - supTotal(s))
 // fee: one account pays, the chain's reward pool receives, nothing is created or destroyed
 //@ func (*StateMachine).AccountDeductFees
 //@   ensures[moves] result == nil ==> acctBal() == old(store(acctBal(), addrOf(address), acctBal(addrOf(address)) - fee)) && poolBal() == old(store(poolBal(), s.Config.ChainId, poolBal(s.Config.ChainId) + fee)) && supTotal(s) == old(supTotal(s))
+//@   ensures[conserve] result == nil ==> allTokens(s) == old(allTokens(s))
+
+// validator accessors (assumed view, as for accounts)
+//@ func (*StateMachine).GetValidator
+//@   trusted
+//@   pure
+//@   ensures isnil(result1) ==> result0 != nil && fresh(result0) && result0.StakedAmount == stakeOf(addrOf(address)) && bytes(result0.Address) == addrOf(address)
+//@   ensures !isnil(result1) ==> result0 == nil
+//@ func (*StateMachine).UpdateValidatorStake
+//@   trusted
+//@   modifies ghost(stakeOf), ghost(stakeSum), ghost(supStaked), ghost(supDelegated), Validator.StakedAmount, Validator.Committees
+//@   ensures isnil(err) ==> stakeSum(s) == old(stakeSum(s)) + amountToAdd && stakeOf() == old(store(stakeOf(), bytes(val.Address), stakeOf(bytes(val.Address)) + amountToAdd))
+//@   ensures !isnil(err) ==> stakeSum(s) == old(stakeSum(s)) && stakeOf() == old(stakeOf())
+
+// a committee reward credits exactly the amount it reports, to exactly one balance or stake;
+// nothing is minted or burned here (the undistributed remainder is burned by the caller)
+//@ func (*StateMachine).DistributeCommitteeReward
+//@   ensures[accounted] err == nil ==> allTokens(s) == old(allTokens(s)) + distributed
+//@   ensures[failsafe] err != nil ==> allTokens(s) == old(allTokens(s))
+//@   ensures[frame] supTotal(s) == old(supTotal(s)) && poolBal() == old(poolBal()) && poolSum(s) == old(poolSum(s))
